@@ -320,6 +320,57 @@ impl Modelled for Tr4 {
     }
 }
 
+/// Transparent newtype whose only field is compact: the derive must NOT forward `decode_into`
+/// to the raw integer.
+#[derive(Encode, Decode, DecodeWithMemTracking, Clone, Debug, PartialEq)]
+#[repr(transparent)]
+pub struct TrC(#[codec(compact)] pub u32);
+impl Modelled for TrC {
+    fn schema() -> S {
+        S::Tuple(vec![S::Compact(4)])
+    }
+    fn to_model(&self) -> V {
+        V::Tuple(vec![V::U(self.0 as u128)])
+    }
+    fn from_model(v: &V) -> Self {
+        TrC(v.as_tuple()[0].as_u() as u32)
+    }
+}
+
+#[derive(Encode, Decode, DecodeWithMemTracking, Clone, Debug, PartialEq)]
+#[repr(transparent)]
+pub struct TrE {
+    #[codec(encoded_as = "<u64 as HasCompact>::Type")]
+    pub a: u64,
+}
+impl Modelled for TrE {
+    fn schema() -> S {
+        S::Tuple(vec![S::Compact(8)])
+    }
+    fn to_model(&self) -> V {
+        V::Tuple(vec![V::U(self.a as u128)])
+    }
+    fn from_model(v: &V) -> Self {
+        TrE { a: v.as_tuple()[0].as_u() as u64 }
+    }
+}
+
+/// Transparent with a skipped zero-sized sibling.
+#[derive(Encode, Decode, DecodeWithMemTracking, Clone, Debug, PartialEq)]
+#[repr(transparent)]
+pub struct TrS(pub u16, #[codec(skip)] pub PhantomData<u32>);
+impl Modelled for TrS {
+    fn schema() -> S {
+        S::Tuple(vec![u16::schema(), S::Skipped(V::Unit)])
+    }
+    fn to_model(&self) -> V {
+        V::Tuple(vec![self.0.to_model(), V::Unit])
+    }
+    fn from_model(v: &V) -> Self {
+        TrS(u16::from_model(&v.as_tuple()[0]), PhantomData)
+    }
+}
+
 // ---- enums --------------------------------------------------------------------------------
 
 #[derive(Encode, Decode, DecodeWithMemTracking, Clone, Debug, PartialEq)]
